@@ -79,9 +79,115 @@ Proof.
 Qed.
 Print Assumptions C12_float_nan_refuted.
 
+(* ---------- (a) tuples: EncodeMemCmpKey / Decode ---------- *)
+
+(* Decode inverts EncodeMemCmpKey on every non-empty tuple of values within the contract
+   (int64, non-NaN float64, any byte string, nil); -0.0 comes back as +0.0 *)
+Theorem C12_tuple_roundtrip : forall vs, vs <> [] -> Forall mval_ok vs ->
+  decode_vals (encode_vals vs) = Ok (map mval_norm vs).
+Proof. exact decode_encode_vals. Qed.
+Print Assumptions C12_tuple_roundtrip.
+
+(* order of encodings = lexicographic order of the tuples (kind first, then value; a prefix is smaller) *)
+Theorem C12_tuple_order : forall a b, Forall mval_ok a -> Forall mval_ok b ->
+  bytes_cmp (encode_vals a) (encode_vals b) = tuple_cmp a b.
+Proof. exact encode_vals_cmp. Qed.
+Print Assumptions C12_tuple_order.
+
+Theorem C12_tuple_inj : forall a b, Forall mval_ok a -> Forall mval_ok b ->
+  encode_vals a = encode_vals b -> map mval_norm a = map mval_norm b.
+Proof. exact encode_vals_inj. Qed.
+Print Assumptions C12_tuple_inj.
+
+Theorem C12_peek_length : forall v r, peek (encode_val v ++ r) = Ok (length (encode_val v)).
+Proof. exact peek_encode. Qed.
+Print Assumptions C12_peek_length.
+
+Theorem C12_cut_one : forall v r, cut_one (encode_val v ++ r) = Ok (encode_val v, r).
+Proof. exact cut_one_encode. Qed.
+Print Assumptions C12_cut_one.
+
+(* ---------- (b) injectivity over the whole key universe ---------- *)
+
+(* two well-formed keys of ANY types (kv, size/meta records, hash/set/zset members, list elements,
+   zset score index, bitmap segments, json) with the same engine key are the same key
+   (up to the sign of a zero score). Guards (wf_ekey): table names without ':', collection keys
+   shorter than 65536, int64 sequence numbers / indexes, non-NaN scores. No length limit on tables. *)
+Theorem C12_keys_injective : forall x y, wf_ekey x -> wf_ekey y ->
+  encode_ekey x = encode_ekey y -> ekey_norm x = ekey_norm y.
+Proof. exact ekey_inj. Qed.
+Print Assumptions C12_keys_injective.
+
+(* ---------- (c) ranges contain exactly their own keys ---------- *)
+
+Theorem C12_collection_range : forall dt t k x, is_coll_type dt = true -> no_sep t -> len16 k -> wf_ekey x ->
+  in_range (coll_start_key dt t k) (coll_stop_key dt t k) (encode_ekey x) = true <->
+  exists sub, x = KColl dt t k sub.
+Proof. exact coll_range_iff. Qed.
+Print Assumptions C12_collection_range.
+
+Theorem C12_list_range : forall t k x, no_sep t -> len16 k -> wf_ekey x ->
+  in_range_closed (l_encode_list_key t k list_min_seq) (l_encode_list_key t k list_max_seq) (encode_ekey x) = true <->
+  exists seq, x = KList t k seq /\ (list_min_seq <= seq <= list_max_seq)%Z.
+Proof. exact list_range_iff. Qed.
+Print Assumptions C12_list_range.
+
+Theorem C12_zscore_range : forall t k x, no_sep t -> wf_ekey x ->
+  in_range (z_encode_start_key t k) (z_encode_stop_key t k) (encode_ekey x) = true <->
+  exists sc m, x = KZScore t k sc m.
+Proof. exact zscore_range_iff. Qed.
+Print Assumptions C12_zscore_range.
+
+Theorem C12_zscore_one_score_range : forall t k sc x, no_sep t -> float_ok sc -> wf_ekey x ->
+  in_range (z_encode_start_score_key t k sc) (z_encode_stop_score_key t k sc) (encode_ekey x) = true <->
+  exists sc' m, x = KZScore t k sc' m /\ float_key sc' = float_key sc.
+Proof. exact zscore_score_range_iff. Qed.
+Print Assumptions C12_zscore_one_score_range.
+
+Theorem C12_bitmap_range : forall t k x, no_sep t -> wf_ekey x ->
+  in_range (encode_bitmap_key t k 0) (encode_bitmap_stop_key t k) (encode_ekey x) = true <->
+  exists i, x = KBitmap t k i /\ (0 <= i)%Z.
+Proof. exact bitmap_range_iff. Qed.
+Print Assumptions C12_bitmap_range.
+
+(* the whole-table range of one data type holds exactly the keys of that type and table *)
+Theorem C12_table_range : forall dt t x, is_table_type dt = true -> no_sep t -> wf_ekey x ->
+  in_range (encode_data_table_start dt t) (encode_data_table_end dt t) (encode_ekey x) = true <->
+  ekey_type x = dt /\ ekey_table x = t.
+Proof. exact table_range_iff. Qed.
+Print Assumptions C12_table_range.
+
+(* the meta-record range of a whole-table delete (getTableMetaRange) *)
+Theorem C12_table_meta_range : forall ty t x, is_meta_type ty = true -> no_sep t -> wf_ekey x ->
+  (exists lo hi, get_table_meta_range ty t [] None = Ok (lo, hi) /\
+     (in_range lo hi (encode_ekey x) = true <-> exists rk, x = KMeta ty t rk)).
+Proof.
+  intros ty t x Hty Ht Hx. eexists _, _. split; [now apply get_table_meta_range_whole|].
+  now apply meta_table_range_iff.
+Qed.
+Print Assumptions C12_table_meta_range.
+
+(* stop keys are the start keys with the last byte (the separator 0x3A) + 1: no overflow *)
+Theorem C12_table_end_no_overflow : forall dt t, exists q,
+  encode_data_table_start dt t = q ++ [table_start_sep] /\
+  encode_data_table_end dt t = q ++ [table_start_sep + 1] /\ table_start_sep + 1 < 256.
+Proof. exact table_end_spec. Qed.
+Print Assumptions C12_table_end_no_overflow.
+
+Theorem C12_coll_stop_no_overflow : forall dt t k,
+  coll_start_key dt t k = coll_base dt t k ++ [coll_start_sep] /\
+  coll_stop_key dt t k = coll_base dt t k ++ [coll_start_sep + 1] /\ coll_start_sep + 1 < 256.
+Proof. exact coll_stop_spec. Qed.
+Print Assumptions C12_coll_stop_no_overflow.
+
 (* ---------- non-vacuity ---------- *)
 Example C12_ex_bytes : encode_bytes [1; 2; 3] = [1; 2; 3; 0; 0; 0; 0; 0; 250] /\
   encode_bytes [1; 2; 3; 4; 5; 6; 7; 8] = [1; 2; 3; 4; 5; 6; 7; 8; 255; 0; 0; 0; 0; 0; 0; 0; 0; 247].
 Proof. split; vm_compute; reflexivity. Qed.
+Example C12_ex_wf : wf_ekey (KColl 22 [116] [107; 58; 107] [102]) /\ wf_ekey (KZScore [116] [107] 0 [109]) /\
+  encode_ekey (KColl 22 [116] [107] [102]) = [22; 0; 1; 116; 58; 0; 1; 107; 58; 102].
+Proof.
+  repeat split; try (vm_compute; reflexivity); try (intros [H|[]]; discriminate H).
+Qed.
 Example C12_ex_float_ok : float_ok 13830554455654793216 (* -0.5 *) /\ int64_ok (-9223372036854775808).
 Proof. split; [split; vm_compute; reflexivity|unfold int64_ok; lia]. Qed.
